@@ -439,9 +439,17 @@ func ruleC15d(c *Ctx) {
 		})
 		// status before the first body byte
 		var wh, wr []ssa.Instruction
+		always := alwaysWritesStatus(p)
 		eachInstr(fn, func(i ssa.Instruction) {
 			cc := callCommon(i)
-			if cc == nil || cc.StaticCallee() == nil || recvTypeName(cc.StaticCallee()) != "Response" {
+			if cc == nil || cc.StaticCallee() == nil {
+				return
+			}
+			if always[cc.StaticCallee()] && cc.StaticCallee() != fn {
+				wh = append(wh, i) // a helper that writes the status on every path
+				return
+			}
+			if recvTypeName(cc.StaticCallee()) != "Response" {
 				return
 			}
 			switch cc.StaticCallee().Name() {
@@ -514,4 +522,50 @@ func ruleC15e(c *Ctx) {
 		})
 	}
 	c.count("chain_continuations", n)
+}
+
+// alwaysWritesStatus: module functions every path of which calls (*Response).WriteHeader, directly or
+// through another such function (helpers like `setContentTypeAndStatus`).
+func alwaysWritesStatus(p *Program) map[*ssa.Function]bool {
+	if p.alwaysStatus != nil {
+		return p.alwaysStatus
+	}
+	set := map[*ssa.Function]bool{}
+	for changed := true; changed; {
+		changed = false
+		for _, fn := range p.SrcFunc {
+			if set[fn] || fn.Blocks == nil {
+				continue
+			}
+			sites := map[ssa.Instruction]bool{}
+			eachInstr(fn, func(i ssa.Instruction) {
+				cc := callCommon(i)
+				if cc == nil || cc.StaticCallee() == nil {
+					return
+				}
+				if _, isDefer := i.(*ssa.Defer); isDefer {
+					return
+				}
+				cal := cc.StaticCallee()
+				if (cal.Name() == "WriteHeader" && recvTypeName(cal) == "Response") || set[cal] {
+					sites[i] = true
+				}
+			})
+			if len(sites) == 0 {
+				continue
+			}
+			if min, _, ok := countOnPaths(fn, nil, sites); ok && min >= 1 {
+				set[fn] = true
+				changed = true
+			}
+		}
+	}
+	// the gate itself is not a "helper"
+	for fn := range set {
+		if fn.Name() == "WriteHeader" && recvTypeName(fn) == "Response" {
+			delete(set, fn)
+		}
+	}
+	p.alwaysStatus = set
+	return set
 }
